@@ -1,6 +1,10 @@
-// Harness for C15 (paged iteration). Two tiers, both compared with the Lean model (lean/Model/Paging.lean):
+// Harness for C15 (paged iteration). Three tiers, all compared with the Lean model (lean/Model/Paging.lean,
+// lean/Model/PagingHist.lean):
 //   - session tier (session.go, ops `sess` / `sessx`): a real gocql.Session runs a paged query against a
 //     scripted in-memory node; observed: rows + final error at the application, requests at the node.
+//   - history tier (hist.go, histgen.go, op `hist`): ONE *gocql.Query object driven through a history of
+//     setters, Iter() calls, interleaved Scan calls and cancellations against a KEYED node; observed: rows +
+//     error per iterator, the multiset of requests with every wire attribute, observer and tracer calls.
 //   - Iter tier (op `iter`): REAL gocql Iter / nextIter / framer chains for scripted pages (built through
 //     the hook file) consumed with the real Scan, Scanner, MapScan and SliceMap, without a server.
 //
